@@ -76,6 +76,7 @@ type FuncVC struct {
 	decls    []string
 	declared map[string]Sort
 	typeIDs  map[string]int // dynamic type identities (dyntype.go)
+	wfSeen   map[string]bool
 	assumps  []string
 	obls     []*Obligation
 	counter  map[string]int
@@ -389,6 +390,21 @@ func (fx *FuncVC) loadPtr(st *State, p PtrV) Val {
 			ls = append(ls, cell)
 		}
 		v := fx.build(target, ls)
+		if st.sym == nil && fx.st != nil && fx.st.sym == nil {
+			// type invariant of what was loaded (0 <= len <= cap, ...): also for loads made while
+			// evaluating a contract, e.g. of a slice field that a callee has just re-assigned
+			key := ""
+			for _, t := range ls {
+				key += t.S + "|"
+			}
+			if fx.wfSeen == nil {
+				fx.wfSeen = map[string]bool{}
+			}
+			if _, isSlice := v.(SliceV); (isSlice || isStrOrStruct(v)) && !fx.wfSeen[key] {
+				fx.wfSeen[key] = true
+				fx.assumeWF(v)
+			}
+		}
 		return v
 	}
 	panic(unsupported("nil pointer dereference in load"))
@@ -590,4 +606,12 @@ func (fx *FuncVC) storeFrameLemma(nh, h, dstBase, srcBase, idx T) {
 		is, idx.S, nh.S, dstBase.S, h.S, srcBase.S, nh.S, dstBase.S, h.S, srcBase.S)
 	fx.assumeRaw(T{q1, SBool})
 	fx.assumeRaw(T{q2, SBool})
+}
+
+func isStrOrStruct(v Val) bool {
+	switch v.(type) {
+	case StrV, StructV:
+		return true
+	}
+	return false
 }
